@@ -47,6 +47,9 @@ CHECKS = {
  "C08": dict(
    text="Theorems (Props/C08.v): check f G C e = Ok w <-> has_width f G C e w for the declarative rule system written from the property's sentences (ExprRules.v); widths unique; a rejection carries a diagnostic; default feature set proved on the regenerated table. Tie: operator x width-pair grid, random nestings, one-fault nestings: verdict, width and diagnostic kind vs the model; program level: the expression assigned to a plain wire, register input, stall/bubble and built-in inputs.",
    note="declared-width and slice-bound limits (<=128) live in the grammar and are tied by correspondence only.", ref="4 C08"),
+ "C09": dict(
+   text="Theorems (Props/C09.v): a program accepted by Program::new (model Build.build_program, any built-in table / feature set) declares no name twice and none a built-in owns, assigns no name twice and none that already has a driver (built-in output, constant, bank output), assigns every declared wire and bank input, lets no constant read a wire, has well-formed banks; a rejection always carries a diagnostic; with the table of the compiled implementation the schedule is valid: everything an action reads has exactly one driver earlier in the cycle, for every hash order. Tie: a correct random program with exactly one injected driver fault out of 21 classes on a known name (plain wires, constants incl. preamble ones, bank inputs/outputs, stall/bubble, built-in inputs/outputs) or none: (1) rejected with a diagnostic of that kind naming that wire / accepted when fault-free, (2) verdict, diagnostic multiset and compiled program equal to the model fed with the implementation's own parse.",
+   note="the converse (fault-free programs without width or cycle faults are accepted) is tied by the fault-free and one-fault correspondence only; error ORDER is hash dependent and compared as a multiset.", ref="4 C09"),
  "C10": dict(
    text="Theorems (Props/C10.v), for EVERY presentation (hash iteration order) of a well-formed graph: toposort answers a cycle iff one exists; a reported cycle is a real cycle; otherwise the answer is a linear extension; find_cycle's panic is unreachable; Kahn's counters never underflow and its fuel suffices. Tie: hook toposort_trace on every digraph with self-loops on <=4 nodes under fresh hash seeds (thorough: + 400k on 5 nodes, 20k structured larger ones): detection vs an independent python DFS, answers validated by the extracted checkers, and equality with the model run on the very iteration orders the implementation saw; HCL level: random wire graphs through every built-in path and non-path, printed chain verified edge by edge.",
    note="graph construction from assignments (which edges exist) tied at HCL level by correspondence; HashSet semantics (each element once, clone keeps order) trusted / checked by the hook.", ref="4 C10"),
